@@ -20,9 +20,9 @@ ASSUMPTIONS = [
     "reference engine: CPython re.fullmatch with re.DOTALL ('.' = any byte, which is what ppci's SIGMA = 0..255 denotes)",
     "reference Thompson NFA written in /verif; for every AST it is compared with re on all bounded strings before it is used (a disagreement "
     "makes the AST unclassified, never a violation)",
-    "re is exponential on deeply nested quantifiers: with 3 nested quantifiers re judges strings of length <= 5, with 4 or more those of length <= 3, and the reference NFA "
+    "re is exponential on deeply nested quantifiers: with 3 nested quantifiers re judges strings of length <= 5, with 4 those of length <= 2, with 5 or more those of length <= 1, and the reference NFA "
     "(validated on those) judges the longer ones; counted in n_strings_judged_by_reference_nfa_only",
-    "non-termination of compile() is decided by a deterministic work budget of 5000 sub-expression derivative() calls (terminating "
+    "non-termination of compile() is decided by a deterministic work budget of 10000 sub-expression derivative() calls (terminating "
     "expressions of the enumerated sizes need < 1000), counted by wrappers installed from the check (not by editing /repo)",
     "symbols are bytes 0..255 (ppci's SIGMA); code points above 255, complemented classes [^..], anchors, counted repetition and empty "
     "alternatives are outside the supported syntax named by the property and are not generated",
@@ -396,7 +396,7 @@ def ref_munch(s, member, nullable):
 
 # ---------------------------------------------------------------- ppci side
 
-WORK_BUDGET = 5000
+WORK_BUDGET = 10000
 
 
 class WorkLimit(Exception):
@@ -442,6 +442,7 @@ def reference_dfa_size(ast):
                 seen.add(t)
                 todo.append(t)
     return len(seen)
+
 
 def build_api(ast):
     """The same expression through the public constructors the parser itself uses."""
@@ -517,6 +518,11 @@ def show(s):
     return repr(s)
 
 
+def etext(ex):
+    """Exception text without object addresses (they vary between runs)."""
+    return re.sub(r" at 0x[0-9a-fA-F]+", "", str(ex))[:200]
+
+
 def check_case(p, ast, mode, text, nfa, R, L, Ls, seen_tables, order=None, RP=None):
     """One presentation of one AST.  Returns the compiled tables (or None)."""
     from ppci.lang.tools import regex as rx
@@ -543,7 +549,7 @@ def check_case(p, ast, mode, text, nfa, R, L, Ls, seen_tables, order=None, RP=No
     except Exception as ex:  # noqa
         p.add()
         viol(locus(exc_key("parser" if mode != "api" else "api", ex)), "%s: %s raised %s: %s (re accepts the expression)"
-                    % (label, "parse" if mode != "api" else "building the expression", type(ex).__name__, ex), w)
+                    % (label, "parse" if mode != "api" else "building the expression", type(ex).__name__, etext(ex)), w)
         return None
     try:
         with cpu_limit(60), derivative_budget(WORK_BUDGET) as box:
@@ -559,7 +565,7 @@ def check_case(p, ast, mode, text, nfa, R, L, Ls, seen_tables, order=None, RP=No
     except Exception as ex:  # noqa
         p.add()
         viol(locus(exc_key("compile", ex)), "%s: compile raised %s: %s (re accepts the expression; %d strings of length <= %d match)"
-                    % (label, type(ex).__name__, ex, sum(R), L), w)
+                    % (label, type(ex).__name__, etext(ex), sum(R), L), w)
         return None
     if mode != "api":
         # the public string entry point (known to terminate now)
@@ -572,7 +578,7 @@ def check_case(p, ast, mode, text, nfa, R, L, Ls, seen_tables, order=None, RP=No
             return None
         except Exception as ex:  # noqa
             p.add()
-            viol(locus(exc_key("compile", ex)), "%s: compile raised %s: %s" % (label, type(ex).__name__, ex), w)
+            viol(locus(exc_key("compile", ex)), "%s: compile raised %s: %s" % (label, type(ex).__name__, etext(ex)), w)
             return None
     if prog in seen_tables:
         p.count("presentations_with_identical_tables")
@@ -584,7 +590,7 @@ def check_case(p, ast, mode, text, nfa, R, L, Ls, seen_tables, order=None, RP=No
         P = run_automaton(dfa, dfa.acc_of, parent, last)
     except Exception as ex:  # noqa
         p.add()
-        viol(locus(exc_key("dfa", ex)), "%s: running the DFA tables raised %s: %s" % (label, type(ex).__name__, ex), w)
+        viol(locus(exc_key("dfa", ex)), "%s: running the DFA tables raised %s: %s" % (label, type(ex).__name__, etext(ex)), w)
         return None
     p.add(len(ss))
     p.count("strings_run_on_tables", len(ss))
@@ -605,7 +611,7 @@ def check_case(p, ast, mode, text, nfa, R, L, Ls, seen_tables, order=None, RP=No
                                                                                              "accepts" if r else "rejects"), dict(w, s=s))
                     return None
         except Exception as ex:  # noqa
-            viol(locus(exc_key("dfa", ex)), "%s: stepping the DFA tables raised %s: %s" % (label, type(ex).__name__, ex), w)
+            viol(locus(exc_key("dfa", ex)), "%s: stepping the DFA tables raised %s: %s" % (label, type(ex).__name__, etext(ex)), w)
             return None
     # (ii) product automaton, all bytes, no length bound
     reps = class_reps(dfa.boundaries(), nfa.boundaries())
@@ -613,7 +619,7 @@ def check_case(p, ast, mode, text, nfa, R, L, Ls, seen_tables, order=None, RP=No
         path, nst, ntr = product(dfa, nfa, reps, dfa.acc_of, lambda i: nfa.acc[i])
     except Exception as ex:  # noqa
         p.add()
-        viol(locus(exc_key("dfa", ex)), "%s: stepping the DFA tables raised %s: %s" % (label, type(ex).__name__, ex), w)
+        viol(locus(exc_key("dfa", ex)), "%s: stepping the DFA tables raised %s: %s" % (label, type(ex).__name__, etext(ex)), w)
         return None
     p.count("product_states", nst)
     p.count("product_transitions", ntr)
@@ -643,7 +649,7 @@ def check_case(p, ast, mode, text, nfa, R, L, Ls, seen_tables, order=None, RP=No
         except ValueError:
             err = "ValueError"
         except Exception as ex:  # noqa
-            viol(exc_key("scan", ex), "%s: scan(%s) raised %s: %s" % (label, show(s), type(ex).__name__, ex), dict(w, s=s, stage="scan"))
+            viol(exc_key("scan", ex), "%s: scan(%s) raised %s: %s" % (label, show(s), type(ex).__name__, etext(ex)), dict(w, s=s, stage="scan"))
             break
         if status == "empty":
             ok = got == exp_toks
@@ -673,10 +679,10 @@ def quant_depth(a):
 def re_length_bound(ast, L):
     """CPython's backtracking matcher is exponential in the string length on deeply nested quantifiers (one 5-node expression
     needs minutes for the strings of length 5): with 3 nested quantifiers re judges the strings of length <= 5 only, with more
-    than 3 those of length <= 3; the
+    than 3 those of length <= 2 (5 or more: <= 1); the
     longer ones are judged by the reference NFA, which has then agreed with re on every shorter string of this expression."""
     d = quant_depth(ast)
-    return L if d <= 2 else (min(L, 5) if d == 3 else 3)
+    return L if d <= 2 else (min(L, 5) if d == 3 else (2 if d == 4 else 1))
 
 
 def check_ast(p, ast, L, Ls, modes=("min", "full", "api"), order=None):
@@ -690,8 +696,10 @@ def check_ast(p, ast, L, Ls, modes=("min", "full", "api"), order=None):
         p.count("unclassified_reference_nfa_disagrees_with_re")
         p.collect("unclassified_regexes", tmin)
         return
-    RP = re_language(tmin, PROBES)
-    if RP != [accepts(nfa, lambda i: nfa.acc[i], s) for s in PROBES]:
+    lre = re_length_bound(ast, L)
+    NP = [accepts(nfa, lambda i: nfa.acc[i], s) for s in PROBES]
+    RP = [r if len(s) <= lre else n for s, r, n in zip(PROBES, re_language(tmin, [s if len(s) <= lre else "" for s in PROBES]), NP)]
+    if RP != NP:
         p.count("unclassified_reference_nfa_disagrees_with_re")
         p.collect("unclassified_regexes", tmin)
         return
@@ -744,7 +752,7 @@ def check_pair(p, a1, a2, Lv, order=None):
         key = None
         for a, t in ((a1, t1), (a2, t2)):
             key = key or parser_verdict(a, "min", t, RefNFA(a))
-        viol(key or exc_key("compile", ex), "%s raised %s: %s" % (label, type(ex).__name__, ex), w)
+        viol(key or exc_key("compile", ex), "%s raised %s: %s" % (label, type(ex).__name__, etext(ex)), w)
         return
     idx = {t: i for i, t in enumerate(ss)}
     nullable = R1[0] or R2[0]
@@ -762,7 +770,7 @@ def check_pair(p, a1, a2, Lv, order=None):
         except ValueError:
             err = "ValueError"
         except Exception as ex:  # noqa
-            viol(exc_key("vector", ex), "%s.scan(%s) raised %s: %s" % (label, show(s), type(ex).__name__, ex), dict(w, s=s))
+            viol(exc_key("vector", ex), "%s.scan(%s) raised %s: %s" % (label, show(s), type(ex).__name__, etext(ex)), dict(w, s=s))
             return
         texts = [t[1] if isinstance(t, tuple) and len(t) == 2 else t for t in got]
         ok = texts == exp_toks and (status == "empty" or (err is not None) == (status == "error"))
